@@ -316,7 +316,7 @@ def run_property(spec, tier, sd, replay, t0):
     if replay:
         with open(replay) as fh:
             lines = [ln.rstrip("\n") for ln in fh]
-        ops = [ln for ln in lines if ln.strip() and not ln.startswith("#")]
+        ops = [ln for ln in lines if ln.strip() and not ln.lstrip().startswith("#")]
         meta = {}
         for ln in lines:
             if ln.startswith("#meta "):      # generator annotations the monitor needs (kind of case, expectations)
@@ -341,7 +341,9 @@ def run_property(spec, tier, sd, replay, t0):
         run_batch(list(spec.cases(rng, tier)))
         # escalate when the tie is broken and nothing concrete was found yet
         if (tie_broken or first_diff) and not violations and tier != "thorough":
-            run_batch(list(spec.cases(C.Rng(sd + 7919), "thorough")))
+            # (the very sequence of the thorough tier at this seed, so that the thorough runs on the unchanged tree have
+            # judged exactly these cases)
+            run_batch(list(spec.cases(C.Rng(sd * 1000003 + sum(ord(c) for c in pid)), "thorough")))
 
     if not replay:
         try:
@@ -371,11 +373,14 @@ def run_property(spec, tier, sd, replay, t0):
     if violations:
         cls, msg, case = violations[0]
         ops = case.ops
-        if impl_exe is not None and len(ops) > 1 and not case.meta.get("noshrink"):
+        # Shrinking is off unless a spec opts in (`shrink = True`): a subsequence of a generated case is in general not a
+        # scenario the monitors' expectations were written for (set-up ops, drains, answered pings ... disappear), and a replay
+        # that also fails on the unchanged tree is no witness.  The replay is the generated case as it ran.
+        if getattr(spec, "shrink", False) and impl_exe is not None and len(ops) > 1 and not case.meta.get("noshrink"):
             ops = shrink_case(spec, impl_exe, None, case,
                               lambda r: any(f.cls == cls for f in r["findings"]))
         p = C.write_replay(pid, "violation-%s.ops" % re.sub(r"[^A-Za-z0-9]+", "-", cls),
-                           "# %s: %s\n# case %s\n#meta %s\n" % (cls, msg, case.name, replay_meta(case)) + "\n".join(ops) + "\n")
+                           "# %s: %s\n# case %s\n#meta %s\n" % (cls, " | ".join(x.strip() for x in msg.splitlines())[:1500], case.name, replay_meta(case)) + "\n".join(ops) + "\n")
         print("VIOLATION property=%s replay=%s" % (pid, p))
         print("  " + msg[:400])
         rc = 1
